@@ -79,3 +79,121 @@ Theorem C02_whole_template_renders_like_the_specification fs (data : list (bytes
     end.
 Proof. exact (template_refines_specification fs data ns). Qed.
 Print Assumptions C02_whole_template_renders_like_the_specification.
+
+(* ---- from the token stream: the statement parser builds exactly the tree the tokens spell (text,
+   {{ e }}, assignments, @if / @elseif / @else, @each with @else, @break, @continue, @breakIf,
+   @continueIf; any nesting, any body length, empty bodies), with the fuel the model really uses *)
+From Coq Require Import String.
+From TW Require Import GenToken Lexer Parser Pratt StmtParse.
+
+Theorem C02_tokens_parse_to_the_statement_tree ss eof :
+  wf_ss ss -> ttype eof = T_EOF ->
+  parse_tokens (flats ss ++ [eof]) = ParsedOk (mkProgram (asts ss) None [] [] []).
+Proof. exact (template_parses_to_its_tree ss eof). Qed.
+Print Assumptions C02_tokens_parse_to_the_statement_tree.
+
+(* non-vacuity: the lexed source of a template with text around an @if / @elseif / @else is such a tree *)
+Example C02_lexed_template_is_a_tree :
+  exists ss eof,
+    lex_all (bs "<p>@if(a)x@elseif(b == 1){{ y }}@else z@end</p>"%string) = Some (flats ss ++ [eof]) /\
+    ttype eof = T_EOF /\ wf_ss ss /\
+    parse_tokens (flats ss ++ [eof]) = ParsedOk (mkProgram (asts ss) None [] [] []).
+Proof.
+  destruct (lex_all (bs "<p>@if(a)x@elseif(b == 1){{ y }}@else z@end</p>"%string)) as [ts|] eqn:E; [|vm_compute in E; discriminate E].
+  vm_compute in E. injection E as <-.
+  match goal with |- exists ss eof, Some (?t1 :: ?kw :: ?lp :: ?a :: ?rp :: ?x :: ?ke :: ?elp :: ?b :: ?eq :: ?one :: ?erp ::
+                                         ?lb :: ?y :: ?rb :: ?te :: ?z :: ?en :: ?t2 :: ?eoft :: nil) = _ /\ _ =>
+    exists [TText t1;
+            TIf kw lp rp en (CAtom a) [TText x] [(ke, elp, erp, CBin eq (CAtom b) (CAtom one), [TCode lb rb (CAtom y)])]
+                (Some (te, [TText z]));
+            TText t2], eoft
+  end.
+  split; [reflexivity|]. split; [reflexivity|].
+  match goal with |- wf_ss ?l /\ _ => assert (W : wf_ss l) end; [|split; [exact W|apply template_parses_to_its_tree; [exact W|reflexivity]]].
+  cbn [wf_ss wf_s wf wf_list_with llev rlev]. unfold tprec, INF. cbn [ttype].
+  repeat split; try reflexivity; try discriminate; try (vm_compute; lia).
+Qed.
+
+(* ---- both halves together: from the token stream of a template to its output.  [Dens ss ns]
+   (Proofs/TemplatePipeline.v) says the concrete trees ss spell the specification template ns. *)
+From TW Require Import Template TemplatePipeline.
+
+Theorem C02_from_tokens_to_output ss ns eof fs (data : list (bytes * value)) :
+  wf_ss ss -> Dens ss ns -> ttype eof = T_EOF ->
+  forallb (fun kv : bytes * value => clean (snd kv)) data = true -> nodes_ok ns ->
+  parse_tokens (flats ss ++ [eof]) = ParsedOk (mkProgram (map cnode ns) None [] [] []) /\
+  exists K, forall fm, (K <= fm)%nat ->
+    match run_nodes model_call_spec fs [data] ns with
+    | TOk out SigNormal _ => exists en', eval_program cx0 fm [data] (map cnode ns) [] = Ok (out, en')
+    | TOk _ _ _ => True
+    | TFail => exists ln msg, eval_program cx0 fm [data] (map cnode ns) [] = Fail ln msg
+    | TNoFuel | TUnprintable => True
+    end.
+Proof. exact (template_tokens_render ss ns eof fs data). Qed.
+Print Assumptions C02_from_tokens_to_output.
+
+(* non-vacuity: a lexed source, the specification template it spells, and what the specification renders *)
+Example C02_lexed_template_renders :
+  let ns := [NText (bs "<p>"); NIf (XVar (bs "a")) [NText (bs "x")] [(XBin BEq (XVar (bs "b")) (XInt 1), [NPrint (XVar (bs "y"))])]
+                                (Some [NText (bs " z")]); NText (bs "</p>")]%string in
+  exists ss eof,
+    lex_all (bs "<p>@if(a)x@elseif(b == 1){{ y }}@else z@end</p>"%string) = Some (flats ss ++ [eof]) /\
+    ttype eof = T_EOF /\ wf_ss ss /\ Dens ss ns /\ nodes_ok ns /\
+    run_nodes model_call_spec 20 [[(bs "a", VBool false); (bs "b", VInt 1); (bs "y", VStr (bs "Y"))]]%string ns
+      = TOk (bs "<p>Y</p>"%string) SigNormal [[(bs "a", VBool false); (bs "b", VInt 1); (bs "y", VStr (bs "Y"))]]%string.
+Proof.
+  intro ns.
+  destruct (lex_all (bs "<p>@if(a)x@elseif(b == 1){{ y }}@else z@end</p>"%string)) as [ts|] eqn:E; [|vm_compute in E; discriminate E].
+  vm_compute in E. injection E as <-.
+  match goal with |- exists ss eof, Some (?t1 :: ?kw :: ?lp :: ?a :: ?rp :: ?x :: ?ke :: ?elp :: ?b :: ?eq :: ?one :: ?erp ::
+                                         ?lb :: ?y :: ?rb :: ?te :: ?z :: ?en :: ?t2 :: ?eoft :: nil) = _ /\ _ =>
+    exists [TText t1;
+            TIf kw lp rp en (CAtom a) [TText x] [(ke, elp, erp, CBin eq (CAtom b) (CAtom one), [TCode lb rb (CAtom y)])]
+                (Some (te, [TText z]));
+            TText t2], eoft
+  end.
+  split; [reflexivity|]. split; [reflexivity|].
+  split.
+  { cbn [wf_ss wf_s wf wf_list_with llev rlev]. unfold tprec, INF. cbn [ttype].
+    repeat split; try reflexivity; try discriminate; try (vm_compute; lia). }
+  split.
+  { subst ns.
+    apply DsCons; [apply DText'; reflexivity|].
+    apply DsCons; [|apply DsCons; [apply DText'; reflexivity|apply DsNil]].
+    apply DIf.
+    - reflexivity.
+    - cbn. repeat split.
+    - apply DsCons; [apply DText'; reflexivity|apply DsNil].
+    - apply DeCons; [cbn; repeat split| |apply DeNil].
+      apply DsCons; [|apply DsNil]. apply DCode. cbn. repeat split.
+    - apply DlSome. apply DsCons; [apply DText'; reflexivity|apply DsNil]. }
+  split; [subst ns; cbn; repeat split; lia|].
+  vm_compute. reflexivity.
+Qed.
+
+(* ---- from the source BYTES: a source that spells a checked list of items (Proofs/LexRound.v) whose
+   tokens are those of ss, where ss spells the specification template ns, is lexed to those tokens,
+   parsed to the program of ns and rendered by the model of EvaluateString as the specification says *)
+From TW Require Import Render LexRound.
+
+Theorem C02_from_source_bytes_to_output its ss ns eof fs gd (data : list (bytes * value)) :
+  source_ok its = true -> place (spell its) 0 its = flats ss ++ [eof] -> wf_ss ss -> Dens ss ns ->
+  env_from_map gd = EnvOk [data] ->
+  forallb (fun kv : bytes * value => clean (snd kv)) data = true -> nodes_ok ns ->
+  lex_all (spell its) = Some (flats ss ++ [eof]) /\
+  parse_source (spell its) = ParsedOk (mkProgram (map cnode ns) None [] [] []) /\
+  exists K, (K <= eval_fuel)%nat ->
+    match run_nodes model_call_spec fs [data] ns with
+    | TOk out SigNormal _ => evaluate_string cx0 (spell its) gd = RenderOk out
+    | TOk _ _ _ => True
+    | TFail => exists ln msg, evaluate_string cx0 (spell its) gd = RenderErr ln msg
+    | TNoFuel | TUnprintable => True
+    end.
+Proof. exact (source_renders its ss ns eof fs gd data). Qed.
+Print Assumptions C02_from_source_bytes_to_output.
+
+Example C02_source_in_the_domain_and_rendered :
+  in_domain (bs "<p>@if(a)x@elseif(b == 1){{ y }}@else z@end</p>"%string) = true /\
+  evaluate_string cx0 (bs "<p>@if(a)x@elseif(b == 1){{ y }}@else z@end</p>"%string)
+    [(bs "a", GBool false); (bs "b", GInt 1); (bs "y", GStr (bs "Y"))]%string = RenderOk (bs "<p>Y</p>"%string).
+Proof. split; vm_compute; reflexivity. Qed.
